@@ -156,13 +156,22 @@ theorem dispatch_mod (n : Nat) (x y : Num) : dispatchV (n + 1) "%" [.num x, .num
   simp only [bind, Except.bind] at this
   rw [this]; rfl
 
-theorem dispatch_pow (n : Nat) (x y : Num) : dispatchV (n + 1) "^" [.num x, .num y] [] = liftN (binop .pow x y) := by
+/-- `^` on two numbers is `Num.binop .pow` — unless the exact result would have millions of digits,
+    which the model refuses to compute (`hugePow`) -/
+theorem dispatch_pow (n : Nat) (x y : Num) (hp : hugePow x y = false) :
+    dispatchV (n + 1) "^" [.num x, .num y] [] = liftN (binop .pow x y) := by
   have h := (num_table2 _ (numClass_mem x) _ (numClass_mem y)).2.2.2.2.1
   rw [dispatchV_step (c := ch2 _ .pow) (code := .pow) (by simpa [classOf] using h) rfl]
-  simp only [ch2, coerceArgs_num2, bind, Except.bind, BodyCode.run]
+  simp only [ch2, coerceArgs_num2, bind, Except.bind, BodyCode.run, bPow, hp, Bool.false_eq_true, if_false]
   have := run_num2 pyPow (fun nm as => dispatchV n nm as []) x y
-  simp only [bind, Except.bind] at this
+  simp only [bind, Except.bind, bNum2] at this
   rw [this]; rfl
+
+theorem dispatch_pow_huge (n : Nat) (x y : Num) (hp : hugePow x y = true) :
+    dispatchV (n + 1) "^" [.num x, .num y] [] = .error (.unmodelled "huge power") := by
+  have h := (num_table2 _ (numClass_mem x) _ (numClass_mem y)).2.2.2.2.1
+  rw [dispatchV_step (c := ch2 _ .pow) (code := .pow) (by simpa [classOf] using h) rfl]
+  simp only [ch2, coerceArgs_num2, bind, Except.bind, BodyCode.run, bPow, hp, if_true]
 
 theorem dispatch_div (n : Nat) (x y : Num) : dispatchV (n + 1) "/" [.num x, .num y] [] = liftN (binop .div x y) := by
   have h := (num_table2 _ (numClass_mem x) _ (numClass_mem y)).2.2.2.2.2.1
@@ -187,17 +196,20 @@ theorem dispatch_div (n : Nat) (x y : Num) : dispatchV (n + 1) "/" [.num x, .num
       | rfl
       | (exfalso; exact hxy ⟨rfl, rfl⟩)
 
+/-- the registered name of a binary arithmetic operator -/
+def binName : BinOp → String
+  | .add => "+" | .sub => "-" | .mul => "*" | .div => "/" | .mod => "%" | .pow => "^"
+
 /-- every binary arithmetic operator on two numbers is `Num.binop` -/
-theorem dispatch_binop (n : Nat) (op : BinOp) (x y : Num) :
-    dispatchV (n + 1) (match op with | .add => "+" | .sub => "-" | .mul => "*" | .div => "/" | .mod => "%" | .pow => "^")
-      [.num x, .num y] [] = liftN (binop op x y) := by
+theorem dispatch_binop (n : Nat) (op : BinOp) (x y : Num) (hp : op = .pow → hugePow x y = false) :
+    dispatchV (n + 1) (binName op) [.num x, .num y] [] = liftN (binop op x y) := by
   cases op
   · exact dispatch_add n x y
   · exact dispatch_sub n x y
   · exact dispatch_mul n x y
   · exact dispatch_div n x y
   · exact dispatch_mod n x y
-  · exact dispatch_pow n x y
+  · exact dispatch_pow n x y (hp rfl)
 
 /-- comparisons on two numbers -/
 theorem dispatch_cmp (n : Nat) (nm desc : String) (x y : Num)
@@ -263,8 +275,7 @@ def embed : AExp → Ast
   | .un .neg a => .sign true (embed a)
   | .un op a => .call (unFun op) [embed a] []
 
-theorem spelling_embedBin (op : BinOp) :
-    (embedBin op).spelling = (match op with | .add => "+" | .sub => "-" | .mul => "*" | .div => "/" | .mod => "%" | .pow => "^") := by
+theorem spelling_embedBin (op : BinOp) : (embedBin op).spelling = binName op := by
   cases op <;> rfl
 
 theorem evalE_call1 (env : Env) (name : String) (a : Ast) :
@@ -286,31 +297,95 @@ theorem dispatch_unop (op : UnOp) (x : Num) :
   · rw [dispatchTop, dispatchFuel, unFun, dispatch_fn1 _ _ _ .toInt x t7, applyNum_unop _ .toInt x rfl]
   · rw [dispatchTop, dispatchFuel, unFun, dispatch_fn1 _ _ _ .toFloat x t8, applyNum_unop _ .toFloat x rfl]
 
+/-- every power in the expression is one the model computes: no `x ^ k` whose exact result would
+    have more than 8 million bits (`hugePow`; Python itself computes or hangs on those, and the
+    unified evaluator answers `unmodelled "huge power"`) -/
+def powersModelled : AExp → Bool
+  | .lit _ | .sci _ _ => true
+  | .un _ a => powersModelled a
+  | .bin op a b =>
+    powersModelled a && powersModelled b &&
+      (match op, evalA a, evalA b with
+       | .pow, .ok x, .ok y => !hugePow x y
+       | _, _, _ => true)
+
 /-- **the unified evaluator on the C01 fragment is `evalA`** -/
-theorem evalE_embed (t : AExp) (env : Env) : evalE env (embed t) = liftN (evalA t) := by
+theorem evalE_embed (t : AExp) (env : Env) (hpm : powersModelled t = true) : evalE env (embed t) = liftN (evalA t) := by
   induction t with
   | lit n => rfl
   | sci m e =>
     simp only [embed, evalE, evalA]
     cases simplify (litValue m e) <;> rfl
   | bin op a b iha ihb =>
-    simp only [embed, evalE, evalA, iha, ihb]
-    cases evalA a with
+    simp only [powersModelled, Bool.and_eq_true] at hpm
+    obtain ⟨⟨ha, hb⟩, hop⟩ := hpm
+    simp only [embed, evalE, evalA, iha ha, ihb hb]
+    cases hxa : evalA a with
     | error e => rfl
     | ok x =>
-      cases evalA b with
+      cases hyb : evalA b with
       | error e => rfl
       | ok y =>
         simp only [liftN, bind, Except.bind, spelling_embedBin]
-        exact dispatch_binop _ op x y
+        refine dispatch_binop _ op x y ?_
+        intro hpow
+        subst hpow
+        simpa [hxa, hyb] using hop
   | un op a ih =>
+    simp only [powersModelled] at hpm
     have key : (do let x ← evalE env (embed a); dispatchTop (unFun op) [x] []) = liftN (evalA (.un op a)) := by
-      simp only [ih, evalA]
+      simp only [ih hpm, evalA]
       cases evalA a with
       | error e => rfl
       | ok x =>
         simp only [liftN, bind, Except.bind]
         exact dispatch_unop op x
+    cases op
+    case pos => simpa [embed, evalE, unFun] using key
+    case neg => simpa [embed, evalE, unFun] using key
+    all_goals (simp only [embed]; rw [evalE_call1]; exact key)
+
+/-- without the hypothesis: the unified evaluator agrees with `evalA` or refuses (never a different answer) -/
+theorem evalE_embed_or (t : AExp) (env : Env) :
+    evalE env (embed t) = liftN (evalA t) ∨ evalE env (embed t) = .error (.unmodelled "huge power") := by
+  induction t with
+  | lit n => exact Or.inl rfl
+  | sci m e => exact Or.inl (evalE_embed (.sci m e) env rfl)
+  | bin op a b iha ihb =>
+    simp only [embed, evalE, evalA]
+    rcases iha with ha | ha
+    · rw [ha]
+      cases hxa : evalA a with
+      | error e => exact Or.inl rfl
+      | ok x =>
+        rcases ihb with hb | hb
+        · rw [hb]
+          cases hyb : evalA b with
+          | error e => exact Or.inl rfl
+          | ok y =>
+            simp only [liftN, bind, Except.bind, spelling_embedBin]
+            by_cases hh : op = .pow ∧ hugePow x y = true
+            · obtain ⟨rfl, hh⟩ := hh
+              exact Or.inr (dispatch_pow_huge _ x y hh)
+            · refine Or.inl (dispatch_binop _ op x y ?_)
+              intro hpow
+              cases hq : hugePow x y with
+              | false => rfl
+              | true => exact absurd ⟨hpow, hq⟩ hh
+        · rw [hb]; exact Or.inr rfl
+    · rw [ha]; exact Or.inr rfl
+  | un op a ih =>
+    have key : (do let x ← evalE env (embed a); dispatchTop (unFun op) [x] []) = liftN (evalA (.un op a))
+        ∨ (do let x ← evalE env (embed a); dispatchTop (unFun op) [x] []) = .error (.unmodelled "huge power") := by
+      rcases ih with h | h
+      · rw [h]
+        simp only [evalA]
+        cases evalA a with
+        | error e => exact Or.inl rfl
+        | ok x =>
+          simp only [liftN, bind, Except.bind]
+          exact Or.inl (dispatch_unop op x)
+      · rw [h]; exact Or.inr rfl
     cases op
     case pos => simpa [embed, evalE, unFun] using key
     case neg => simpa [embed, evalE, unFun] using key
@@ -333,8 +408,9 @@ theorem hasInstant_embed (t : AExp) : hasInstant (embed t) = false := by
   | bin op a b iha ihb => simp [embed, hasInstant, iha, ihb]
   | un op a ih => cases op <;> simp [embed, hasInstant, hasInstantL, hasInstantK, ih]
 
-theorem evalStmt_embed (t : AExp) (env : Env) : evalStmt env (embed t) = (env, liftN (evalA t)) := by
-  rw [← evalE_embed t env]
+theorem evalStmt_embed (t : AExp) (env : Env) (hpm : powersModelled t = true) :
+    evalStmt env (embed t) = (env, liftN (evalA t)) := by
+  rw [← evalE_embed t env hpm]
   cases t with
   | lit n => rfl
   | sci m e => rfl
@@ -342,9 +418,10 @@ theorem evalStmt_embed (t : AExp) (env : Env) : evalStmt env (embed t) = (env, l
   | un op a => cases op <;> rfl
 
 /-- a one-statement program over the C01 fragment: `execute` shows `evalA`'s value or its error -/
-theorem runTree_embed (t : AExp) (env : Env) : runTree env (.stmts [embed t]) = (env, numOutcome (evalA t)) := by
+theorem runTree_embed (t : AExp) (env : Env) (hpm : powersModelled t = true) :
+    runTree env (.stmts [embed t]) = (env, numOutcome (evalA t)) := by
   have hi : hasInstant (.stmts [embed t]) = false := by simp [hasInstant, hasInstantL, hasInstant_embed]
-  simp only [runTree, hi, runProgram, runStmts, evalStmt_embed]
+  simp only [runTree, hi, runProgram, runStmts, evalStmt_embed t env hpm]
   cases evalA t with
   | error e => rfl
   | ok v =>
